@@ -509,12 +509,18 @@ def build_mda(cfg: dict, x0: dict):
 
 
 def _dense(m):
+    """Dense array of a returned block: ndarray, SciPy sparse matrix, or (matrix-free disciplines composed by the chain
+    rule of MDAChain(chain_linearize=True)) a gemseo JacobianOperator / SciPy LinearOperator."""
+    if isinstance(m, np.ndarray):
+        return np.asarray(m, dtype=float)
     if hasattr(m, "toarray"):
         return np.asarray(m.toarray(), dtype=float)
+    if hasattr(m, "get_matrix_representation"):  # JacobianOperator: ``op @ array`` is lazy, ``dot`` applies it
+        return np.asarray(m.get_matrix_representation(), dtype=float)
+    if hasattr(m, "matmat"):
+        return np.asarray(m.matmat(np.eye(m.shape[1])), dtype=float)
     if hasattr(m, "todense"):
         return np.asarray(m.todense(), dtype=float)
-    if hasattr(m, "matvec") and not isinstance(m, np.ndarray):
-        return np.asarray(m @ np.eye(m.shape[1]), dtype=float)
     return np.asarray(m, dtype=float)
 
 
